@@ -72,7 +72,16 @@ def gen_rx_case(rng):
             ops += [[0, 'rx', rid, int(ext), hx(f)], [0, 'proc', 1, 0]] + gap_ops(rng, gap, rng.randint(0, 3), do_tx=0) + [[0, 'proc', 1, 0], [0, 'proc', 0, 1], [0, 'recv']]
             continue
         if i == pos and not starved:
-            ops += gap_ops(rng, gap, rng.randint(0, 3))
+            remaining = n - (6 - len(pfx)) - (pos - 1) * (7 - len(pfx))
+            if late and remaining > 12 and rng.random() < 0.3:
+                # in the middle of the gap a frame the reception ignores (the expected Consecutive Frame in a 12-byte CAN frame that
+                # cannot hold the rest): it does not count as "the next Consecutive Frame", the deadline still runs from the last accepted one
+                half = gap // 2
+                ops += gap_ops(rng, half, rng.randint(0, 1))
+                ops += [[0, 'rx', rid, int(ext), hx(pfx + bytes([0x20 | (pos & 0xF)]) + bytes(11 - len(pfx)))], [0, 'proc', 1, 1]]
+                ops += gap_ops(rng, gap - half, rng.randint(0, 1))
+            else:
+                ops += gap_ops(rng, gap, rng.randint(0, 3))
         if split and i == pos - 1:
             ops += [[0, 'rx', rid, int(ext), hx(f)], [0, 'proc', 1, 0], [0, 'tick', rng.choice([T // 2, max(0, T - 1), T // 3])], [0, 'proc', 0, 1], [0, 'recv']]
         else:
